@@ -250,17 +250,22 @@ fn state_payload(files: &[File], variant: &str) -> Res<String> {
 /// which `DATARATES` table `<region_ty as ChannelRegion>::datarates()` returns: the Lean name `Gen.Region`
 /// gives the constant of that file (its `ConstAs` entries)
 fn datarates_table(files: &[File], names: &[String], region_ty: &str) -> Res<String> {
-    let what = format!("{}::datarates()", region_ty);
+    table_of(files, names, region_ty, "ChannelRegion", "datarates")
+}
+
+/// the Lean name (`Gen.Region`, `ConstAs`) of the constant `<region_ty as trait_name>::fn_name()` returns a reference to
+fn table_of(files: &[File], names: &[String], region_ty: &str, trait_name: &str, fn_name: &str) -> Res<String> {
+    let what = format!("{}::{}()", region_ty, fn_name);
     for (f, fname) in files.iter().zip(names.iter()) {
         for it in flat_items(std::slice::from_ref(f)) {
             let Item::Impl(im) = it else { continue };
-            let is_cr = im.trait_.as_ref().map(|(_, p, _)| last_ident(p) == "ChannelRegion").unwrap_or(false);
+            let is_cr = im.trait_.as_ref().map(|(_, p, _)| last_ident(p) == trait_name).unwrap_or(false);
             if !is_cr || type_name(&im.self_ty) != region_ty {
                 continue;
             }
             for ii in &im.items {
                 let ImplItem::Fn(g) = ii else { continue };
-                if g.sig.ident != "datarates" {
+                if g.sig.ident != fn_name {
                     continue;
                 }
                 let e = single_tail_expr(&g.block).ok_or(format!("{}: body is not a single expression", what))?;
@@ -284,6 +289,10 @@ fn datarates_table(files: &[File], names: &[String], region_ty: &str) -> Res<Str
                                     UseTree::Name(n) => n.ident == id,
                                     _ => false,
                                 };
+                                // (`#[path = ".."] mod m;` would make the file guessed below the wrong one)
+                                if f.items.iter().any(|j| matches!(j, Item::Mod(md) if md.ident == m && md.attrs.iter().any(|a| a.path().is_ident("path")))) {
+                                    return Err(format!("{}: `mod {}` has a #[path] attribute (not supported)", what, m));
+                                }
                                 let is_mod = f.items.iter().any(|j| matches!(j, Item::Mod(md) if md.ident == m && md.content.is_none()));
                                 if hit && is_mod {
                                     let dir = fname.rsplit_once('/').map(|x| x.0).unwrap_or("");
@@ -315,7 +324,7 @@ fn datarates_table(files: &[File], names: &[String], region_ty: &str) -> Res<Str
             }
         }
     }
-    Err(format!("{}: impl ChannelRegion for {} not found", what, region_ty))
+    Err(format!("{}: impl {} for {} not found", what, trait_name, region_ty))
 }
 
 fn strip_paren(e: &Expr) -> &Expr {
@@ -845,6 +854,32 @@ fn without_self(sig: &Signature) -> Signature {
     let mut s = sig.clone();
     s.inputs = s.inputs.into_iter().filter(|a| !matches!(a, FnArg::Receiver(_))).collect();
     s
+}
+
+// ------------------------------------------------------------------------------------------------
+// the region type → table wiring of `datarates()` / `uplink_channels()` / `downlink_channels()`
+
+pub fn region_tables(files: &[File], names: &[String], _reg: &mut Registry, out: &mut String) -> Res<()> {
+    let wiring = region_wiring(files)?;
+    writeln!(out, "/-- `<R as ChannelRegion>::datarates()` of the region type behind each `Region`: which constant the body `&CONST` names\n(resolved in the file of the impl: its own `const`, or `mod m; use m::*`) -/").unwrap();
+    writeln!(out, "def datarates : Region → List (Option Datarate)").unwrap();
+    for w in &wiring {
+        writeln!(out, "  | .{} => {}", w.variant, table_of(files, names, &w.region_ty, "ChannelRegion", "datarates")?).unwrap();
+    }
+    writeln!(out).unwrap();
+    for f in ["uplink_channels", "downlink_channels"] {
+        writeln!(out, "/-- `<F as FixedChannelRegion>::{}()` of the region type behind each `Region` (`none`: dynamic plan) -/", f).unwrap();
+        writeln!(out, "def {} : Region → Option (List Int)", f).unwrap();
+        for w in &wiring {
+            if w.fixed {
+                writeln!(out, "  | .{} => some {}", w.variant, table_of(files, names, &w.region_ty, "FixedChannelRegion", f)?).unwrap();
+            } else {
+                writeln!(out, "  | .{} => none", w.variant).unwrap();
+            }
+        }
+        writeln!(out).unwrap();
+    }
+    Ok(())
 }
 
 // ------------------------------------------------------------------------------------------------
